@@ -381,7 +381,7 @@ func doPeek(pe *eval.PolicyEngine, st *engState, c *world.Conc, w *world.World) 
 }
 
 func replayHistory(em *emitter, id int, src string, ops []EngOp, seed int64) {
-	w := &world.World{M: 3, PointPorts: []int{2}, NAddr: 2}
+	w := &world.World{M: 3, PointPorts: []int{1, 2}, NAddr: 2}
 	w.Normalize()
 	conc := world.NewConc(w, seed)
 	cb, _ := json.Marshal(conc)
@@ -440,7 +440,7 @@ func readHistories(path string) ([][]EngOp, error) {
 
 // randomHistory: direction B -- a seeded driver over a larger universe than Engine.tla's catalogue.
 func randomHistory(r *rand.Rand, n int) []EngOp {
-	w := &world.World{M: 3, PointPorts: []int{2}, NAddr: 2, Banp: world.BANP{Nil: true}}
+	w := &world.World{M: 3, PointPorts: []int{1, 2}, NAddr: 2, Banp: world.BANP{Nil: true}}
 	w.Namespaces = []world.Namespace{{Name: "ns1"}, {Name: "ns2"}, {Name: "ns3"}}
 	w.Normalize()
 	g := &world.G{R: r, O: world.GenOpts{M: 3, NAddr: 2}, W: w}
@@ -496,6 +496,8 @@ func randomHistory(r *rand.Rand, n int) []EngOp {
 				p.Ports = []world.CPort{}
 			case 1:
 				p.Ports = []world.CPort{{Name: "http", Proto: "UDP", Port: 2}}
+			case 2:
+				p.Ports = []world.CPort{{Name: "http", Proto: "TCP", Port: 1}} // the usual name and protocol, another number
 			default:
 				p.Ports = []world.CPort{{Name: "http", Proto: "TCP", Port: 2}}
 			}
